@@ -2,7 +2,7 @@
 Driver for C11.  A block is
 
   begin <zones> <deny> <allow>      configuration (catalog in upsert order, ACL prefix lists)
-  req <u|t> <src> <hex> <body> <edns>   one raw request
+  req <u|t> <src> <hex> <body> <edns> <zl>   one raw request
   …
   end
 
@@ -14,6 +14,9 @@ prefix  `4:<addr>/<len>` | `6:<addr>/<len>`   (address as a decimal natural)
 src     `4:<addr>` | `6:<addr>`
 body    `ok` | `bad` | `na`     what the real decoder says about the rest of the message
 edns    `-` | <version>
+zl      `-` | <zone>.<handler>:<flow>,…   for every in-memory handler: what its own lookup code
+        returns for this question (zone content is C10's business; the driver puts the value into
+        the handler's `search` field before running the model)
 -/
 import HickoryVerif.Drv.Proto
 import HickoryVerif.Model.ServerGate
@@ -101,9 +104,8 @@ def showCall : Call → String
 
 def showReply (r : Reply) : String :=
   let rc := match r.rcode with | some n => toString n | none => "*"
-  let via := match r.via with | some n => toString n | none => "-"
   let log := if r.calls.isEmpty then "-" else ",".intercalate (r.calls.map showCall)
-  s!"reply rc={rc} id={r.id} op={r.opcode} rd={showBool r.rd} cd={showBool r.cd} aa={showBool r.aa} ra={showBool r.ra} q={showBool r.echo} opt={showBool r.opt} via={via} log={log}"
+  s!"reply rc={rc} id={r.id} op={r.opcode} rd={showBool r.rd} cd={showBool r.cd} aa={showBool r.aa} ra={showBool r.ra} q={showBool r.echo} opt={showBool r.opt} log={log}"
 
 def showGate : Gate → String
   | .drop => "drop"
@@ -117,6 +119,25 @@ def parseBody (b e : String) : Option Body :=
   | "na" => some .bad
   | _ => none
 
+def parseZl1 (s : String) : Option ((Nat × Nat) × Flow) :=
+  match s.splitOn ":" with
+  | [zh, f] =>
+    match zh.splitOn "." with
+    | [z, h] => do pure ((← z.toNat?, ← h.toNat?), ← parseFlow f)
+    | _ => none
+  | _ => none
+
+def parseZl (s : String) : Option (List ((Nat × Nat) × Flow)) :=
+  if s == "-" then some [] else (s.splitOn ",").mapM parseZl1
+
+/-- put the per-request lookup results of the in-memory handlers into their `search` fields -/
+def substZl (cat : Catalog) (zl : List ((Nat × Nat) × Flow)) : Catalog :=
+  cat.map fun z =>
+    { z with handlers := (indexed z.handlers).map fun (i, hd) =>
+        match zl.lookup (z.idx, i) with
+        | some f => { hd with search := f }
+        | none => hd }
+
 def step (s : State) (toks : List String) : State × String :=
   match toks with
   | ["begin", zones, deny, allow] =>
@@ -124,10 +145,11 @@ def step (s : State) (toks : List String) : State × String :=
     | some cat, some d, some a => (some { acl := { deny := d, allow := a }, catalog := cat }, "ok")
     | _, _, _ => (none, "bad-op")
   | ["end"] => (none, "ok")
-  | ["req", _proto, src, bytes, body, edns] =>
-    match s, parseIp src, parseHex bytes, parseBody body edns with
-    | some cfg, some ip, some buf, some b => (s, showGate (handleRequest cfg ip buf b))
-    | _, _, _, _ => (s, "bad-op")
+  | ["req", _proto, src, bytes, body, edns, zl] =>
+    match s, parseIp src, parseHex bytes, parseBody body edns, parseZl zl with
+    | some cfg, some ip, some buf, some b, some zl =>
+      (s, showGate (handleRequest { cfg with catalog := substZl cfg.catalog zl } ip buf b))
+    | _, _, _, _, _ => (s, "bad-op")
   | _ => (s, "bad-op")
 
 end HickoryVerif.Drv.C11
